@@ -166,6 +166,34 @@ CHECKS = {
             'Trusted: VC generator, clang, z3/cvc5; strncmp as a pure function; mj_hashString as a pure function. Assumed: the table '
             'invariant built by namelist() in user_model.cc (C++, not verified), name addresses inside names, map entries ids or -1.',
             'contracts with ghost parameters + inductive loop invariant and variant over the probing loop, z3 LIA+arrays+quantifiers'),
+    'C05': ('DESIGN.md section 4 / C05',
+            'The decidable pieces of time integration. (1) The Runge-Kutta tableau constants RK4_A / RK4_B, read from the clang AST on every '
+            'run and evaluated exactly over the rationals, are the classical tableau and satisfy all eight order conditions up to order 4 '
+            'with C = row sums as mj_RungeKutta computes them (finite, exhaustive). (2) Deductive proof over the reals on the real '
+            'mj_nextActivation: for every dynamics type integrated by the Euler rule the result is act + act_dot*h, clamped to actrange when '
+            'the actuator is act-limited; for the exact filter the result lies in actrange when limited and otherwise moves strictly in the '
+            'direction of act_dot (exp abstracted as a positive, monotone symbol).',
+            'Trusted: VC generator, clang, z3/cvc5; doubles as reals; mju_clip / mju_max used through contracts proved under C27. Not decided '
+            '(listed): the Euler / implicit / RK4 update rules as a whole, position integration on the manifold, DC-motor slots, convergence order.',
+            'exact rational evaluation of constants from the AST; contracts + symbolic VC generation, z3 NRA'),
+    'C23': ('DESIGN.md section 4 / C23',
+            'Deductive proof (inductive loop invariants, all lengths, mjtNum opaque) of the data-movement routines of the real '
+            'engine_util_misc.c: mju_gather / mju_gatherInt / mju_gatherMasked write res[i] = vec[ind[i]] (0 at negative indices for the '
+            'masked form), mju_scatter / mju_scatterInt write res[ind[i]] = vec[i] and leave every non-indexed position untouched '
+            '(injective index list given with a ghost inverse), the NULL-index forms are copies, and - client lemma over the contracts only - '
+            'gather inverts scatter.',
+            'Trusted: VC generator, clang, z3/cvc5, mju_copy contract (proved under C26). Not decided (listed): factorisations, solves, '
+            'rank-one updates, eigen-decomposition, box QP, dense/sparse conversion round trip, AVX paths.',
+            'contracts with ghost parameters + inductive loop invariants, z3 LIA+arrays+quantifiers'),
+    'C27': ('DESIGN.md section 4 / C27',
+            'Deductive proof, exact over IEEE doubles, of the clamping primitives of actuation on the real code: mju_clip returns a value '
+            'inside [min,max] whenever min <= max and x is not NaN, is the identity inside the range, saturates outside, passes NaN through; '
+            'mju_min / mju_max return one of their arguments and bound both; clampVec (with and without an index list, inductive invariant) '
+            'leaves every limited entry inside its range, unchanged if it already was, and never touches an unlimited entry; '
+            'mj_actuatorDisabled is exactly the bit of the actuator group in the disable mask for groups 0..30 and 0 otherwise.',
+            'Trusted: VC generator, clang, z3/cvc5. Assumed: index lists distinct and in range; ranges ordered, no NaN in the clamped vector. '
+            'Not decided (listed): mj_fwdActuation as a whole, transmissions, muscle curves.',
+            'contracts + symbolic VC generation, z3 QF_FP (exact Float64) + LIA+arrays+quantifiers'),
 }
 
 NA = {
